@@ -97,6 +97,7 @@ impl Worker for W {
         let vm = &vm;
         vm.get_database_mut().emit_debug_info(debug_info);
         let name = format!("c12_{:x}", h);
+        crate::worker::note_key(&json!({"not_this_property": true, "stage": "source-run"}));
         let direct = match crate::worker::guarded(|| run_program_budget(vm, &name, src, 3_000_000)) {
             Ok(d) => d,
             Err(_) => {
@@ -114,6 +115,8 @@ impl Worker for W {
             }
         }
         // ---- serialise
+        crate::worker::clear_key();
+        crate::worker::note_key(&json!({"not_this_property": false, "stage": "bytecode"}));
         let mut buf = Vec::new();
         let ser_res = crate::worker::guarded(|| {
             if case["pretty"].as_bool().unwrap_or(false) {
